@@ -577,3 +577,127 @@ func init() {
 		r.Check(wit == nil, "Catalog.insertTable:log-forced-before-catalog-pages", "the log records of the catalog rows are on disk before the catalog pages are", "path from a catalog heap insert to FlushPage without LogManager.Flush: "+w.DescribeWitness(fn, wit))
 	})
 }
+
+// loopExtraExits counts the edges that leave the loop headed by hdr from a block other than hdr (break, return
+// inside the body; edges into panicking blocks are not counted).
+func loopExtraExits(hdr *ssa.BasicBlock) (n int, where []*ssa.BasicBlock) {
+	// natural loop of the back edges into hdr
+	body := map[*ssa.BasicBlock]bool{hdr: true}
+	var stack []*ssa.BasicBlock
+	for _, p := range hdr.Preds {
+		if hdr.Dominates(p) && !body[p] {
+			body[p] = true
+			stack = append(stack, p)
+		}
+	}
+	for len(stack) > 0 {
+		x := stack[len(stack)-1]
+		stack = stack[:len(stack)-1]
+		for _, p := range x.Preds {
+			if !body[p] {
+				body[p] = true
+				stack = append(stack, p)
+			}
+		}
+	}
+	for b := range body {
+		if b == hdr {
+			continue
+		}
+		for _, s := range b.Succs {
+			if body[s] {
+				continue
+			}
+			if len(s.Instrs) > 0 {
+				if _, isPanic := s.Instrs[len(s.Instrs)-1].(*ssa.Panic); isPanic {
+					continue
+				}
+			}
+			n++
+			where = append(where, b)
+		}
+	}
+	return
+}
+
+func init() {
+	reg("C10-R5", "a table is found again under the name it was stored with: in Catalog.CreateTable the key under which the table is put into tableNames and the name handed to NewTableMetadata (which insertTable persists) are the same value, and that value comes from strings.ToLower, the normalisation GetTableByName applies to every lookup; the catalog reload registers the table under the stored name unchanged", func(w *World, r *Report) {
+		ct := w.Fn("catalog", "Catalog", "CreateTable")
+		names := w.Field("catalog", "Catalog", "tableNames")
+		newMeta := w.FuncObj("catalog", "NewTableMetadata")
+		isLower := func(x ssa.Value) bool {
+			c, ok := x.(*ssa.Call)
+			if !ok {
+				return false
+			}
+			f := c.Call.StaticCallee()
+			return f != nil && f.Pkg != nil && f.Pkg.Pkg.Path() == "strings" && f.Name() == "ToLower"
+		}
+		var key, metaName ssa.Value
+		for _, b := range ct.Blocks {
+			for _, in := range b.Instrs {
+				if mu, ok := in.(*ssa.MapUpdate); ok && fieldLoadOf(mu.Map, names) {
+					key = resolveCell(stripConv(mu.Key))
+				}
+				if c, ok := in.(*ssa.Call); ok && CalleeObj(c) == newMeta {
+					metaName = resolveCell(stripConv(c.Call.Args[1]))
+				}
+			}
+		}
+		r.Check(key != nil && metaName != nil, "CreateTable:registers-and-builds-metadata", "CreateTable registers the table by name and builds its metadata", "tableNames update or NewTableMetadata call not found")
+		if key != nil && metaName != nil {
+			r.Check(key == metaName, "CreateTable:stored-name-is-the-lookup-key", "the name stored with the table is the key it is registered under", "the name given to NewTableMetadata at "+w.Pos(metaName.Pos())+" is not the value used as key of tableNames: after a restart the table is registered under the stored name and lookups (lower-cased) miss it")
+			r.Check(DependsOn(key, isLower), "CreateTable:name-is-normalised", "the name is lower-cased like every lookup", "the registration key does not come from strings.ToLower")
+		}
+		// reload: the key is the stored name itself
+		rl := w.Fn("catalog", "", "RecoveryCatalogFromCatalogPage")
+		toVarchar := w.MethodObj("types", "Value", "ToVarchar")
+		n := 0
+		for _, b := range rl.Blocks {
+			for _, in := range b.Instrs {
+				mu, ok := in.(*ssa.MapUpdate)
+				if !ok || !strings.Contains(mu.Map.Type().String(), "map[string]") {
+					continue
+				}
+				n++
+				r.Check(DependsOn(mu.Key, IsCallTo(toVarchar)), "RecoveryCatalogFromCatalogPage:registered-under-stored-name"+itoaOrd(n), "the reload registers a table under the name read from the catalog row", "key at "+w.InstrPos(in)+" does not come from the stored row")
+			}
+		}
+		r.Floor("name registrations at catalog reload", n, 1)
+		// GetTableByName lower-cases
+		gt := w.Fn("catalog", "Catalog", "GetTableByName")
+		lk := 0
+		for _, b := range gt.Blocks {
+			for _, in := range b.Instrs {
+				if l, ok := in.(*ssa.Lookup); ok && fieldLoadOf(l.X, names) {
+					lk++
+					r.Check(DependsOn(l.Index, isLower), "GetTableByName:lookup-is-normalised"+itoaOrd(lk), "lookups lower-case the name", "lookup key at "+w.InstrPos(in)+" is not lower-cased")
+				}
+			}
+		}
+		r.Floor("tableNames lookups in GetTableByName", lk, 1)
+	})
+
+	reg("C10-R6", "the reload reads the whole catalog: in RecoveryCatalogFromCatalogPage the scans of the table catalog and of the columns catalog end only when their iterator is exhausted (no break / return inside the loops) — rows of one table need not be contiguous: freed slots are refilled first", func(w *World, r *Report) {
+		rl := w.Fn("catalog", "", "RecoveryCatalogFromCatalogPage")
+		end := w.MethodObj("storage/access", "TableHeapIterator", "End")
+		n := 0
+		for _, b := range rl.Blocks {
+			i := blockIf(b)
+			if i == nil || !DependsOn(i.Cond, IsCallTo(end)) {
+				continue
+			}
+			if !reachesBlock(b.Succs[0], b) && !reachesBlock(b.Succs[1], b) {
+				continue
+			}
+			n++
+			k, where := loopExtraExits(b)
+			pos := ""
+			if len(where) > 0 {
+				pos = w.InstrPos(where[0].Instrs[len(where[0].Instrs)-1])
+			}
+			r.Check(k == 0, "RecoveryCatalogFromCatalogPage:catalog-scan-runs-to-the-end"+itoaOrd(n), "a scan over a catalog heap ends only at the end of the heap", fmt.Sprintf("%d early exits from the scan loop (e.g. at %s): rows behind that point are ignored", k, pos))
+		}
+		r.Floor("catalog scan loops at reload", n, 2)
+	})
+}
